@@ -27,6 +27,7 @@ OPS = [
     ("clear",), ("reset", {"y": 2}), ("nested", "x", "n", 5), ("append", "x", 3),
     ("set", "x", {"n": {"m": 2}}), ("listset", "x", 0, 9), ("set", "x", None), ("nested2", "x", "n", "m", 3),
 ]
+OPS.insert(13, ("remove",))  # job targets only; part of the quick alphabet
 DOC_OF = {"J1a": "J1", "J1b": "J1", "J2": "J2", "P1": "P", "P2": "P"}
 
 
@@ -49,6 +50,8 @@ def apply_plain(d, op):
         elif k == "reset":
             d.clear()
             d.update(json.loads(json.dumps(op[1])))
+        elif k == "remove":
+            d.clear()
         elif k == "nested":
             d[op[1]][op[2]] = op[3]
         elif k == "nested2":
@@ -67,8 +70,15 @@ def apply_plain(d, op):
 def apply_real(owner, op):
     """owner: Job or Project (always accessed through owner.doc)."""
     k = op[0]
-    doc = owner.doc
     try:
+        if k == "reset":
+            # whole assignment must not be preceded by any other access of this handle's document
+            owner.doc = json.loads(json.dumps(op[1]))
+            return None, None
+        if k == "remove":
+            owner.remove()
+            return None, None
+        doc = owner.doc
         if k == "set":
             doc[op[1]] = json.loads(json.dumps(op[2]))
         elif k == "attr":
@@ -83,8 +93,6 @@ def apply_real(owner, op):
             return canon.plain(doc.pop(op[1]) if len(op) == 2 else doc.pop(op[1], op[2])), None
         elif k == "clear":
             doc.clear()
-        elif k == "reset":
-            owner.doc = json.loads(json.dumps(op[1]))
         elif k == "nested":
             doc[op[1]][op[2]] = op[3]
         elif k == "nested2":
@@ -116,6 +124,13 @@ class DocWorld:
                       "J2": os.path.join(self.path, "workspace", canon.job_id(sp2), DOCFILE),
                       "P": os.path.join(self.path, PDOCFILE)}
         self.model = {"J1": {}, "J2": {}, "P": {}}
+        self.stale = set()  # handles whose job was removed through another handle (their use is undefined)
+
+    def note(self, target, op):
+        if op[0] == "remove":
+            for t, d in DOC_OF.items():
+                if d == DOC_OF[target] and t != target:
+                    self.stale.add(t)
 
     def file_content(self, doc):
         try:
@@ -132,7 +147,7 @@ class DocWorld:
             mem[t] = None if d is None else canon.canon_json(_raw(d))
         return json.dumps({"model": {k: canon.canon_json(v) for k, v in self.model.items()},
                            "files": {k: (None if self.file_content(k) is None else canon.canon_json(self.file_content(k)))
-                                     for k in self.files}, "mem": mem}, sort_keys=True)
+                                     for k in self.files}, "mem": mem, "stale": sorted(self.stale)}, sort_keys=True)
 
 
 def _raw(v):
@@ -184,12 +199,19 @@ def run_buffered(hist, brackets, capacity, salt):
                 doc = DOC_OF[target]
                 want_ret, want_exc = apply_plain(w.model[doc], op)
                 got_ret, got_exc = apply_real(w.owners[target], op)
+                w.note(target, op)
+                if got_exc is not None and want_exc is None:
+                    out.append(("buffered-op-raises", f"op {k} {op} on {target} raised {got_exc} inside_block={bool(stack)}",
+                                {"inside_block": bool(stack), "exc": got_exc}))
                 if got_exc is None and want_exc is None and not canon.typed_eq(got_ret, want_ret):
                     out.append(("buffered-op-outcome-differs",
                                 f"op {k} {op} on {target}: returned {got_ret!r}/{got_exc}, dict gives {want_ret!r}/{want_exc}",
                                 {"inside_block": bool(stack)}))
                 # reads inside the block through the writing handle see the block's own writes
-                seen = canon.plain(w.owners[target].doc())
+                if op[0] == "remove":
+                    seen = w.model[doc]  # reading job.doc would re-initialise the removed job
+                else:
+                    seen = canon.plain(w.owners[target].doc())
                 if not canon.typed_eq(seen, w.model[doc]):
                     out.append(("read-through-writing-handle-differs",
                                 f"after op {k} {op} on {target} (inside_block={bool(stack)}): handle reads {seen!r}, "
@@ -218,6 +240,8 @@ def run_buffered(hist, brackets, capacity, salt):
             elif not canon.typed_eq(fc, want):
                 out.append(("file-differs-after-block", f"{doc}: file holds {fc!r}, dict is {want!r}", {}))
         for t in _CFG["targets"]:
+            if t in w.stale or (DOC_OF[t] != "P" and w.file_content(DOC_OF[t]) is None and not w.model[DOC_OF[t]]):
+                continue
             seen = canon.plain(w.owners[t].doc())
             if not canon.typed_eq(seen, w.model[DOC_OF[t]]):
                 out.append(("other-handle-differs-after-block", f"{t} reads {seen!r}, dict is {w.model[DOC_OF[t]]!r}", {}))
@@ -244,11 +268,14 @@ def execute(hist):
             doc = DOC_OF[target]
             want_ret, want_exc = apply_plain(w.model[doc], op)
             got_ret, got_exc = apply_real(w.owners[target], op)
+            w.note(target, op)
             n += 1
             if last and got_exc is None and want_exc is None and not canon.typed_eq(got_ret, want_ret):
                 bad("return-value-differs", f"{op} on {target}: returned {got_ret!r}, dict returns {want_ret!r}", op=op[0],
                     type_only=type_only_difference(got_ret, want_ret))
         key = w.key()
+        if hist and hist[-1][1][0] == "remove" and os.path.exists(os.path.dirname(w.files[DOC_OF[hist[-1][0]]])):
+            bad("remove-leaves-job", f"job directory of {hist[-1][0]} still exists after remove()")
         if hist and not viol:
             for doc in w.files:
                 fc = w.file_content(doc)
@@ -257,6 +284,9 @@ def execute(hist):
                         bad("file-differs", f"{doc}: file holds {fc!r}, dict is {w.model[doc]!r} (last op {hist[-1][1]})",
                             type_only=type_only_difference(fc, w.model[doc]), op=hist[-1][1][0])
             for t in _CFG["targets"]:
+                if t in w.stale or (DOC_OF[t] != "P" and w.file_content(DOC_OF[t]) is None and not w.model[DOC_OF[t]]
+                                    and any(o[0] == "remove" for tt, o in hist if DOC_OF[tt] == DOC_OF[t])):
+                    continue  # reading job.doc would re-initialise a removed job
                 try:
                     seen = canon.plain(w.owners[t].doc())
                 except Exception as e:  # noqa
@@ -272,27 +302,33 @@ def execute(hist):
                 fresh = {"P": canon.plain(p.doc())}
                 for j in p:
                     fresh["J1" if j.sp.j == 1 else "J2"] = canon.plain(j.doc()) if j.isfile(DOCFILE) else {}
+                for jd in ("J1", "J2"):
+                    if jd not in fresh and (w.model[jd] or w.file_content(jd) is not None):
+                        bad("fresh-session-reads-differ", f"{jd}: job missing in a fresh session, dict is {w.model[jd]!r}", type_only=False,
+                            op=hist[-1][1][0])
                 for doc, v in fresh.items():
                     if not canon.typed_eq(v, w.model[doc]):
                         bad("fresh-session-reads-differ", f"{doc}: fresh session reads {v!r}, dict is {w.model[doc]!r}",
                             type_only=type_only_difference(v, w.model[doc]), op=hist[-1][1][0])
             except Exception as e:  # noqa
                 bad("read-raises", f"fresh session: {type(e).__name__}: {e}")
-        enabled = [[t, list(o)] for t in _CFG["targets"] for o in _CFG["ops"]]
+        enabled = [[t, list(o)] for t in _CFG["targets"] if t not in w.stale for o in _CFG["ops"]
+                   if not (o[0] == "remove" and DOC_OF[t] == "P")]
     return {"key": key, "enabled": enabled, "viol": viol, "n": n, "cls": hist[-1][1][0] if hist else "init",
             "expected_failure": bool(hist) and apply_plain({}, hist[-1][1])[1] is not None}
 
 
 def buffered_variants(item):
     """Engine-I style item: (history, salt) -> all bracketings x capacities."""
-    hist, salt, caps, targets = item
+    hist, salt, caps, targets = item[:4]
+    mode = item[4] if len(item) > 4 else "all"
     _CFG["targets"] = targets
     hist = tuple((t, tuple(_t(o))) for t, o in hist)
     viol = []
     n = 0
     kinds = set()
     skipped = 0
-    for br in laminar_bracketings(len(hist)):
+    for br in (laminar_bracketings(len(hist)) if mode == "all" else [((0, len(hist)),)]):
         if not br:
             continue
         # inside one buffered block a document is used through ONE handle only (the property speaks of the
@@ -303,6 +339,11 @@ def buffered_variants(item):
             for t, _ in hist[i:j]:
                 used.setdefault(DOC_OF[t], set()).add(t)
             multi = multi or any(len(v) > 1 for v in used.values())
+        # lifecycle operations are not performed inside buffered blocks (removing a job whose document is buffered makes
+        # the block exit raise BufferedError in the dependency; the property speaks of mapping operations)
+        for (i, j) in br:
+            if any(hist[k2][1][0] == "remove" for k2 in range(i, j)):
+                multi = True
         if multi:
             skipped += 1
             continue
@@ -335,21 +376,25 @@ def run(ctx):
     quick = ctx.quick
     _CFG["salt"] = ctx.seed
     _CFG["targets"] = ["J1a", "J1b", "P1"] if quick else ["J1a", "J1b", "J2", "P1", "P2"]
-    _CFG["ops"] = OPS[:14] if quick else OPS
+    _CFG["ops"] = OPS[:15] if quick else OPS
     _CFG["caps"] = [None, 30] if quick else [None, 0, 30, 200]
     depth = 3 if quick else 4 if len(_CFG["targets"]) <= 3 else 3
     # thorough: depth 4 on the small target set, depth 3 on the large one
-    st = engine_h.explore(ctx, _exec, max_depth=depth, chunk=16)
+    st = engine_h.explore(ctx, _exec, max_depth=depth, chunk=16, collect_all=True)
     engine_h.fill_report(report, st)
-    reps = [(h, list(_CFG["targets"])) for h in st.reps]
+    reps = [(h, list(_CFG["targets"]), "all") for h in st.reps]
+    # buffering depends on the history, not only on the state it reaches: every other explored history is run
+    # inside one buffered block as well
+    reps += [(h, list(_CFG["targets"]), "full-block") for h in st.nonreps]
     if not quick:
         _CFG["targets"] = ["J1a", "J1b", "P1"]
-        _CFG["ops"] = OPS[:14]
-        st2 = engine_h.explore(ctx, _exec, max_depth=4, chunk=16)
+        _CFG["ops"] = OPS[:15]
+        st2 = engine_h.explore(ctx, _exec, max_depth=4, chunk=16, collect_all=True)
         engine_h.fill_report(report, st2)
-        reps += [(h, list(_CFG["targets"])) for h in st2.reps]
+        reps += [(h, list(_CFG["targets"]), "all") for h in st2.reps]
+        reps += [(h, list(_CFG["targets"]), "full-block") for h in st2.nonreps]
     # buffered variants of every history that reached a new state
-    items = [(h, ctx.seed, _CFG["caps"], tg) for h, tg in reps]
+    items = [(h, ctx.seed, _CFG["caps"] if mode == "all" else [None], tg, mode) for h, tg, mode in reps]
     tot = engine_i.run_items(ctx, iter(items), buffered_variants, chunk=4)
     report.violations.extend(tot.viol)
     report.harness_errors.extend(tot.herr)
